@@ -150,3 +150,32 @@ impl Subscriber {
         sum
     }
 }
+
+#[cfg(rnacos_verif)]
+impl Subscriber {
+    /// verification hook (read-only): (key -> clients, client -> keys), unsorted
+    #[allow(clippy::type_complexity)]
+    pub fn verif_dump(
+        &self,
+    ) -> (
+        Vec<(ConfigKey, Vec<Arc<String>>)>,
+        Vec<(Arc<String>, Vec<ConfigKey>)>,
+    ) {
+        let a = self
+            .listener
+            .iter()
+            .map(|(k, s)| (k.clone(), s.iter().cloned().collect()))
+            .collect();
+        let b = self
+            .client_keys
+            .iter()
+            .map(|(c, s)| (c.clone(), s.iter().cloned().collect()))
+            .collect();
+        (a, b)
+    }
+
+    /// verification hook (read-only): is a BiStreamManage address injected
+    pub fn verif_has_conn_manage(&self) -> bool {
+        self.conn_manage.is_some()
+    }
+}
